@@ -20,8 +20,29 @@ use crate::common::{is_thorough, ExpSpec};
 pub struct C18;
 
 impl Checker for C18 {
-    fn check(&self, _cfg: &Cfg, _ops: &[Op], ex: &Exec) -> Vec<(String, String)> {
-        o::o_stamps("C18", ex)
+    fn check(&self, _cfg: &Cfg, ops: &[Op], ex: &Exec) -> Vec<(String, String)> {
+        let mut v = o::o_stamps("C18", ex);
+        // a successful rename leaves ALL stamp words of the renamed entry (directories included) as they were
+        if let (Some(Op::Rename { .. }), Some(Ok(_)), Some(Ok(pre)), Some(Ok(post))) = (ops.last(), ex.outs.last(), &ex.pre, &ex.suffix.flushed) {
+            for (nid, _) in &ex.model.nodes {
+                if *nid == harness::model::ROOT || !ex.model_pre.nodes.contains_key(nid) {
+                    continue;
+                }
+                let (pa, pb) = (ex.model_pre.path_of(*nid), ex.model.path_of(*nid));
+                if pa == pb {
+                    continue;
+                }
+                if let (Some(a), Some(b)) = (pre.find_entry(&pa), post.find_entry(&pb)) {
+                    let wa = (a.ctime_tenth, a.ctime, a.cdate, a.adate, a.mtime, a.mdate);
+                    let wb = (b.ctime_tenth, b.ctime, b.cdate, b.adate, b.mtime, b.mdate);
+                    // only the renamed entry itself (its descendants also change path but are not rewritten)
+                    if wa != wb && ex.model.nodes[nid].given != ex.model_pre.nodes[nid].given || (wa != wb && ex.model.nodes[nid].parent != ex.model_pre.nodes[nid].parent) {
+                        v.push(("C18/stamp/rename-changed-words".into(), format!("{pa} -> {pb}: stamp words {wa:?} became {wb:?}")));
+                    }
+                }
+            }
+        }
+        v
     }
 }
 
@@ -57,6 +78,8 @@ pub fn alphabet(cs: u32) -> Vec<Op> {
         Op::Write { h: 0, len: 2 },
         Op::Seek { h: 0, pos: sess::SeekSpec::Start(1) },
         Op::Remount,
+        // same time of day as instant(900) (12:00:00.000, exactly representable at 2 s), another date
+        Op::SetTime { h: 0, which: Which::Modified, tick: 1500 },
     ]
 }
 
@@ -73,6 +96,15 @@ pub fn specs(tier: &str) -> Vec<ExpSpec> {
             c.name = format!("{}-clock{}-opts{}", c.name, if atime { "-atime" } else { "" }, c.opts_order);
             v.push(ExpSpec::new(c, alphabet(512), if th { 8 } else { 5 }));
         }
+    }
+    // the remaining (builder order, option value) pairs, shallow (create, write, seek, read = 4)
+    for (order, atime) in [(0u8, true), (1, false), (2, true), (3, false)] {
+        let mut c = vol::tiny_with(FatType::Fat12, 8, 16);
+        c.ticking = true;
+        c.atime = atime;
+        c.opts_order = order;
+        c.name = format!("{}-clock{}-opts{}-x", c.name, if atime { "-atime" } else { "" }, order);
+        v.push(ExpSpec::new(c, alphabet(512), 4));
     }
     v
 }
